@@ -119,6 +119,7 @@ def _pack_with_annotated_serialization_strategy(
     return PackerRegistry.get(
         spec.copy(
             type=value_type,
+            annotated_type=None,
             expression=(
                 f"{spec.self_attrs_name}.{overridden_fn}({spec.expression})"
             ),
